@@ -794,6 +794,73 @@ def gen_shared_machine_case(rng, share=None, max_q=10):
             return {"inst": inst, "L": L, "P": P, "shape": "three-on-one-machine", "penalties": kind}
 
 
+def gen_tight_jobs_case(rng, share=None, max_q=10):
+    """Two or three jobs whose total duration EQUALS the makespan limit (every operation of theirs has one start time and
+    no qubit) next to one or two jobs with slack whose operations share machines with them: pair terms between a fixed
+    operation and a variable one reduce to that variable's bare value term, several of them can fall on one start time.
+    Penalties close together (all equal, or the encoding penalty slightly above the constraint penalties), which is where a
+    wrong viability weight lets an undecodable state sink below the encoding penalty.  Small enough for all 2^n states."""
+    while True:
+        if rng.random() < 0.6:
+            # deliberate: the fixed operations of the tight jobs sit side by side on one common machine, a job with slack has
+            # one longer operation there, so one of its start times collides with two or three fixed operations at once
+            ms = ["m0", "m1", "m2"]
+            rng.shuffle(ms)
+            c, pre_m, post_m = ms
+            L = rng.randint(4, 7)
+            n_t = 2
+            d0, d1 = rng.choice([1, 1, 2]), rng.choice([1, 1, 2])
+            if d0 + d1 > L:
+                continue
+            a = rng.randint(0, L - d0 - d1)
+            # the two tight jobs do not collide with each other: j0 = A[0,a) c[a,a+d0) B[a+d0,L), j1 = B[0,a+d0) c[a+d0,a+d0+d1) A[a+d0+d1,L)
+            parts = [[(pre_m, a), (c, d0), (post_m, L - a - d0)], [(post_m, a + d0), (c, d1), (pre_m, L - a - d0 - d1)]]
+            jobs = [{"name": f"j{j}", "ops": [{"name": f"o{x}", "job": f"j{j}", "machine": m, "dur": d} for x, (m, d) in enumerate([q for q in pj if q[1] > 0])]}
+                    for j, pj in enumerate(parts)]
+            ops = [{"name": "o0", "job": f"j{n_t}", "machine": c, "dur": rng.choice([2, 2, 3])}]
+            if rng.random() < 0.3:
+                ops.append({"name": "o1", "job": f"j{n_t}", "machine": rng.choice([pre_m, post_m]), "dur": 1})
+            jobs.append({"name": f"j{n_t}", "ops": ops})
+            rng.shuffle(jobs)
+            inst = {"name": "inst", "machines": sorted(ms), "jobs": jobs}
+            if longest(inst) != L or not 2 <= expected_qubits(inst, L) <= max_q:
+                continue
+            return _tight_penalties(rng, inst, L, share)
+        ms = ["m0", "m1"] if rng.random() < 0.6 else ["m0", "m1", "m2"]
+        L = rng.randint(3, 7)
+        jobs = []
+        for j in range(rng.choice([2, 2, 3])):
+            # a tight job: operations on distinct machines whose durations add up to L
+            k = rng.randint(1, min(len(ms), L))
+            cuts = sorted(rng.sample(range(1, L), k - 1))
+            durs = [b - a for a, b in zip([0] + cuts, cuts + [L])]
+            machines = rng.sample(ms, k)
+            jobs.append({"name": f"j{j}", "ops": [{"name": f"o{x}", "job": f"j{j}", "machine": m, "dur": d} for x, (m, d) in enumerate(zip(machines, durs))]})
+        for j in range(len(jobs), len(jobs) + rng.choice([1, 1, 2])):
+            k = rng.randint(1, 2)
+            machines = rng.sample(ms, k)
+            jobs.append({"name": f"j{j}", "ops": [{"name": f"o{x}", "job": f"j{j}", "machine": m, "dur": rng.randint(1, 2)} for x, m in enumerate(machines)]})
+        rng.shuffle(jobs)
+        inst = {"name": "inst", "machines": ms, "jobs": jobs}
+        if longest(inst) != L or not 2 <= expected_qubits(inst, L) <= max_q:
+            continue
+        return _tight_penalties(rng, inst, L, share)
+
+
+def _tight_penalties(rng, inst, L, share):
+    w = rng.choice(DYADIC)
+    kind = rng.choice(["tight-all-equal", "tight-enc-slightly-above", "tight-enc-slightly-above", "tight-default"])
+    if kind == "tight-all-equal":
+        P = {"enc": w, "overlap": w, "prec": w, "opt": w}
+    elif kind == "tight-enc-slightly-above":
+        P = {"enc": w + rng.choice(DYADIC[:4]) * rng.choice([1, Fraction(1, 8)]), "overlap": w, "prec": w, "opt": rng.choice([w, w / 2])}
+    else:
+        P = dict(DEFAULT_P)
+    P["share"] = rng.choice([0, 0, Fraction(1, 2), 1]) if share is None else share
+    P = {k: (float(v) if isinstance(v, Fraction) else v) for k, v in P.items()}
+    return {"inst": inst, "L": L, "P": P, "shape": "tight-jobs", "penalties": kind}
+
+
 def gen_contended_case(rng, share=None, min_q=11, max_q=16):
     """Instances whose variables have several qubits and many pair terms per start time: 2-4 single-operation jobs on one
     machine (plus sometimes a second operation elsewhere) with slack 2..5.  These are the states where the negative
